@@ -224,6 +224,12 @@ def resolve_plugin(plugin: str, lineinfo) -> object:
             lineinfo.filename,
             lineinfo.line_num,
         )
+    if not all(part.isidentifier() for part in plugin.split(".")) or "." not in plugin:
+        raise exc.DataGenImportError(
+            f"Plugin name should look like `package.module.ClassName`, not `{plugin}`",
+            lineinfo.filename,
+            lineinfo.line_num,
+        )
     cls = resolve_plugin_alternatives(plugin)
     if not cls:
         raise exc.DataGenImportError(
@@ -231,6 +237,13 @@ def resolve_plugin(plugin: str, lineinfo) -> object:
         )
 
     categories = []
+
+    if not isinstance(cls, type):
+        raise exc.DataGenTypeError(
+            f"{cls} is not a Faker Provider nor Snowfakery Plugin",
+            lineinfo.filename,
+            lineinfo.line_num,
+        )
 
     if issubclass(cls, FakerProvider):
         categories.append((FakerProvider, cls))
@@ -279,7 +292,6 @@ def resolve_plugin_alternatives(plugin):
         try:
             module = import_module(module_name)
             if hasattr(module, class_name):
-                assert getattr(module, class_name)
                 return getattr(module, class_name)
         except ModuleNotFoundError:
             pass
